@@ -170,6 +170,24 @@ impl Scenario for ConcSc {
             *rec.stats.probes.entry("single-steps").or_insert(0) += run.single_steps;
             *rec.stats.probes.entry("caller-thread-events").or_insert(0) += run.events.iter().sum::<u64>();
             rec.case(&[77, trace[anchor].op as u64, n as u64, per as u64, same as u64, run.switches.min(6)], run.switches > (n as u64 - 1));
+            // (b') for the first session of the run: a SYSTEMATIC sweep with one preemption — every event of every thread in
+            // turn (strided so that a run stays below ~120 executions): the other threads run while the preempted one is parked
+            // at that event. One preemption at every possible event is what finds most ordering bugs in practice.
+            if si == 0 {
+                let total: u64 = dry.events.iter().sum();
+                let stride = (total / 120).max(1);
+                let mut fired = 0u64;
+                for t in 0..n {
+                    let mut e = 1 + (plan.seed % stride);
+                    while e <= dry.events[t] {
+                        let r = conc::run_controlled(&build(), plan.seed ^ e ^ ((t as u64) << 40), &[Preempt { thread: t, event: e, steps: 0 }]);
+                        check(rec, &r.outs, "one-preemption-sweep");
+                        fired += r.preempts_fired;
+                        e += stride;
+                    }
+                }
+                *rec.stats.faults.entry("thread-preempted-at-event(sweep)").or_insert(0) += fired;
+            }
             // (c) free-running (not replayable; sound because the oracle does not depend on the interleaving)
             if plan.get("free") == 1 && si == 0 {
                 let outs = conc::run_free(&build(), plan.seed ^ 0xF, 12);
